@@ -56,7 +56,8 @@ class Reservoir(object):
 
     def add(self, val):
         self._total_count += 1
-        if self._total_count <= self._cap:
+        if len(self._data) < self._cap:
+            # not (yet, or after an enlarging resize, no longer) full
             self._data.append(val)
             return
 
